@@ -119,14 +119,23 @@ Lemma lookup_free_intro chk t d : t !! hash d = None -> lookup chk t d = Free.
 Proof. intros H. unfold lookup. rewrite H. reflexivity. Qed.
 
 (* ---- session operations --------------------------------------------------- *)
+Lemma take_next_spec s x q s' l :
+  take_next s x q = (s', l) -> s_out s = x :: q -> q_own s ->
+  s_id s' = s_id s /\ q_own s' /\ Forall (fun o => o_dev o = s_id s) l.
+Proof.
+  unfold take_next, q_own. intros H E Q. rewrite E in Q.
+  pose proof (Forall_inv Q) as Qx. pose proof (Forall_inv_tail Q) as Qq.
+  destruct (o_crypt x && o_names x (s_id s)); injection H as <- <-; cbn.
+  - split; [reflexivity|]. split; [exact Qq|]. constructor; [exact Qx|constructor].
+  - split; [reflexivity|]. split; [constructor|exact Q].
+Qed.
 Lemma next_true_spec s s' l :
   next_true s = (s', l) -> q_own s ->
   s_id s' = s_id s /\ q_own s' /\ Forall (fun o => o_dev o = s_id s) l.
 Proof.
   unfold next_true. intros H Q. destruct (s_out s) as [|x q] eqn:E.
   - injection H as <- <-. auto.
-  - injection H as <- <-. cbn. split; [reflexivity|]. split; [constructor|].
-    unfold q_own in Q. rewrite E in Q. exact Q.
+  - eapply take_next_spec; eauto.
 Qed.
 Lemma next_false_spec s s' l :
   next_false s = (s', l) -> q_own s ->
@@ -134,8 +143,7 @@ Lemma next_false_spec s s' l :
 Proof.
   unfold next_false. intros H Q. destruct (s_out s) as [|x q] eqn:E.
   - injection H as <- <-. split; [reflexivity|]. split; [exact Q|]. repeat constructor.
-  - injection H as <- <-. cbn. split; [reflexivity|]. split; [constructor|].
-    unfold q_own in Q. rewrite E in Q. exact Q.
+  - eapply take_next_spec; eauto.
 Qed.
 
 Lemma q_own_set_host s a : q_own s -> q_own (set_host s a).
@@ -240,6 +248,7 @@ Proof.
   destruct (lookup true t (l_dev n)) as [|s|s] eqn:L.
   - (* the slot is free *)
     apply lookup_free in L.
+    destruct (body_empty (l_body n) && (l_pid n =? SvHello)). { injection H as <- <- <-. exact ERR. }
     destruct (negb (l_pid n =? SvHello)).
     { injection H as <- <- <-. exact REG. }
     destruct (l_body n); try (injection H as <- <- <-; exact ERR).
@@ -281,7 +290,7 @@ Proof.
         split; [refine (List.Forall_impl _ _ X3); cbn; intros x Hx; rewrite Hx; congruence|].
         split; [intros d; discriminate|intros d [= <-]; exact E].
   - (* the slot holds another device: nothing is touched *)
-    injection H as <- <- <-. exact REG.
+    destruct (body_empty (l_body n) && (l_pid n =? SvHello)); injection H as <- <- <-; [exact ERR|exact REG].
 Qed.
 
 Lemma resolve_tags_spec a host tags : forall t seen add e t' add' e' r N T,
@@ -665,7 +674,7 @@ Lemma unknown_gets_register_talk_sub a t n o :
   id_empty (l_dev n) = false -> server_session t (l_dev n) = None -> (l_pid n =? SvHello) = false ->
   talk_sub a t n o = (t, [], ASub None 0 (Some (l_dev n)) []).
 Proof.
-  intros NE U NH. unfold talk_sub, talk_sub_g. rewrite NE, NH. cbn [negb].
+  intros NE U NH. unfold talk_sub, talk_sub_g. rewrite NE, NH, andb_false_r. cbn [negb].
   pose proof (unknown_not_own t _ NE U) as X.
   destruct (lookup true t (l_dev n)) as [|s|s]; [reflexivity| |reflexivity]. exfalso. eapply X. reflexivity.
 Qed.
@@ -747,10 +756,12 @@ Qed.
 
 Lemma collider_cannot_register_sub a t d s n o :
   t !! hash d = Some s -> s_id s <> d -> id_empty d = false -> l_dev n = d ->
-  talk_sub a t n o = (t, [], ASub None 0 (Some d) []).
+  talk_sub a t n o = (t, [], if body_empty (l_body n) && (l_pid n =? SvHello) then AErr EMalformed
+                             else ASub None 0 (Some d) []).
 Proof.
   intros L D NE <-. unfold talk_sub, talk_sub_g. rewrite NE.
-  rewrite (lookup_other_intro _ _ _ L D). reflexivity.
+  rewrite (lookup_other_intro _ _ _ L D).
+  destruct (body_empty (l_body n) && (l_pid n =? SvHello)); reflexivity.
 Qed.
 
 (* ------------------------------------------------------------------------- *)
